@@ -204,6 +204,22 @@ def jsonable(v):
     return repr(v)
 
 
+def _has_quantifier(assertions):
+    seen = set()
+    todo = list(assertions)
+    while todo:
+        e = todo.pop()
+        if z3.is_quantifier(e):
+            return True
+        k = e.get_id()
+        if k in seen:
+            continue
+        seen.add(k)
+        if z3.is_app(e):
+            todo.extend(e.children())
+    return False
+
+
 def cvc5_check(smt2, timeout_ms=10000):
     """Run cvc5 (python API) on an SMT-LIB2 script; returns 'sat' | 'unsat' | 'unknown'."""
     try:
@@ -249,8 +265,37 @@ def discharge(ob, inputs, both=False, timeout_ms=None):
         s.add(ob.claim)
     else:
         s.add(z3.Not(ob.claim))
-    r = s.check()
+    r = z3.unknown
     backend = "z3"
+    if ob.kind in ("cover", "mustfail") and _has_quantifier(s.assertions()):
+        # satisfiability of a quantified path condition is expensive to establish; the vacuity guard asks the
+        # cheaper question "is it refutable by instantiation?" and reports `unknown` (never `sat`) otherwise
+        s0 = z3.Solver()
+        s0.set("timeout", 1500)
+        s0.set("smt.mbqi", False)
+        s0.set("smt.auto_config", False)
+        for c in s.assertions():
+            s0.add(c)
+        r0 = s0.check()
+        ob.backend = "z3(ematching)"
+        ob.time = time.time() - t0
+        ob.status = "refuted" if r0 == z3.unsat else ("discharged" if r0 == z3.sat else "unknown")
+        return ob
+    if ob.kind not in ("cover", "mustfail") and _has_quantifier(s.assertions()):
+        # quantified VC: E-matching alone (no model-based instantiation) refutes the negated goal quickly when the
+        # obligation holds; `unknown` falls through to the default configuration, which can also build models
+        s0 = z3.SolverFor("UFLIA") if False else z3.Solver()
+        s0.set("timeout", min(Z3_TIMEOUT_MS, 6000))
+        s0.set("smt.mbqi", False)
+        s0.set("smt.auto_config", False)
+        for c in s.assertions():
+            s0.add(c)
+        r0 = s0.check()
+        if r0 == z3.unsat:
+            r = r0
+            backend = "z3(ematching)"
+    if r == z3.unknown:
+        r = s.check()
     res = str(r)
     if r == z3.unknown:
         # retry with different seeds, then cvc5
@@ -357,7 +402,7 @@ def run_contract(con, both=False):
         any_ensures = any_ensures or (case is not None and case.reached_ensures) or (case is None and bool(path.obligations))
         # vacuity guard: the path condition (requires + branch conditions) is satisfiable
         cov = engine.Obligation("%s.cover" % con.name, z3.BoolVal(True), path.pc, kind="cover")
-        discharge(cov, path.inputs, timeout_ms=con.timeout_ms)
+        discharge(cov, path.inputs, timeout_ms=min(con.timeout_ms or 3000, 3000))
         out["solver_s"] += cov.time
         if cov.status == "refuted":
             # the path condition is unsatisfiable (the cheap feasibility probe had timed out): not a path
@@ -372,6 +417,9 @@ def run_contract(con, both=False):
             names[ob.name] = k + 1
             full = "%s.p%d" % (ob.name, pi) if len(results) > 1 else ob.name
             discharge(ob, path.inputs, both=both, timeout_ms=con.timeout_ms)
+            if ob.info.get("overapprox") and ob.status == "discharged":
+                # the claim was replaced by a necessary condition: it can refute, never prove
+                ob.status = "unknown"
             out["solver_s"] += ob.time
             if ob.kind == "mustfail":
                 # contract-level sanity: the weakened claim must be refutable on at least one path
